@@ -371,4 +371,4 @@ def _obligations():
 
 
 def obligations():
-    return _obligations() + [effects_obligation("C20")]
+    return _obligations() + [labels_obligation("C20"), effects_obligation("C20")]
